@@ -19,6 +19,7 @@ EXPLANATION = (
     'attributes with those of the current alias\'s type and every successful exit hands them to try_into_patch; TypeRef::patch appends all of '
     'them; errors (DoesNotExist / TypeMismatch) are produced on the Err edge of the lookup (rule-precondition ledger of the patcher).')
 THOROUGH_RERUN = ['release']     # the same rules over the release build (no debug assertions): verified clean on the pinned tree
+WITNESSES = ['AstTablesArePrivate']     # thorough tier: engines/witness (T12)
 ASSUMPTIONS = ['rustc type checking and MIR construction', 'HashMap::get/insert behave as documented']
 TRP = "slicec::patchers::type_ref_patcher::TypeRefPatcher::<'_>::"
 NODE = 'slicec::ast::node::Node'
